@@ -175,6 +175,7 @@ fn check(c: &Case) -> CaseResult {
         .label(f.empty_meta, "metadata-length-0")
         .label(c.l.zero_counters != 0, "counters-unknown-0")
         .label(f.prefix_overlap, "same-offset-different-length")
+        .label(f.mixed, "tile-entries-and-leaf-pointers-in-one-directory")
         .label(true, super::c01::codec_label(c.l.internal))
         .label(c.open % 3 == 2, "open-async"))
 }
